@@ -1720,7 +1720,7 @@ def message_templates(R, RID, minimum=20):
     need(n_sites >= minimum, 'expected at least %d WebSocketError construction sites, found %d' % (minimum, n_sites))
     f = R.func('errors.WebSocketError.__init__')
     fm = [x for x in own_nodes(f.node) if isinstance(x, ast.Call) and isinstance(x.func, ast.Attribute) and x.func.attr == 'format']
-    R.ob(RID, 'WebSocketError formats msg with its arguments', len(fm) == 1, 'WebSocketError.__init__ body', func=f,
+    R.ob(RID, 'WebSocketError formats msg with its arguments', len(fm) >= 1 and all(U(x.func.value) == f.params[1] for x in fm), 'WebSocketError.__init__ body', func=f,
          node=None, construct='WebSocketError.__init__')
 
 
